@@ -196,6 +196,25 @@ def check_vote_weights(p, report):
                   " does not zero the weights at the missing-label mask")
         report.add("R17.2", g.qual, f"weights `{w}` zeroed at missing entries before np.bincount", f"{g.file}:{bc.lineno}",
                    ok, detail=why)
+    # pairing: positions and weights are flattened in the same, layout-independent order
+    flats = []
+    for opnd in ([bc.args[0]] if bc.args else []) + ([wexpr] if wexpr is not None else []):
+        for n in ast.walk(opnd):
+            if isinstance(n, ast.Call) and c01.callname(n) in ("ravel", "flatten", "reshape"):
+                flats.append(n)
+    bad = None
+    for n in flats:
+        for k in n.keywords:
+            if k.arg == "order" and not (isinstance(k.value, ast.Constant) and k.value.value == "C"):
+                bad = n
+        if c01.callname(n) in ("ravel", "flatten") and n.args and not (
+                isinstance(n.args[0], ast.Constant) and n.args[0].value == "C") and \
+                not _is_module_call(n):
+            bad = n
+    report.add("R17.2", g.qual, "positions and weights of np.bincount flattened in C order", f"{g.file}:{bc.lineno}",
+               bad is None, detail=f"{len(flats)} flattening call(s), all in the default (C) order" if bad is None else
+               f"`{ast.unparse(bad)}` flattens in a memory-layout dependent order: a weight can be paired with the "
+               "position of another entry (e.g. an F-ordered weight array), giving weight to a missing label")
     # mask provenance: is_unlabeled(<encoded y>, missing_label=-1) with y from the label encoder
     okm = False
     for m, call in mask_calls.items():
@@ -214,6 +233,10 @@ def check_vote_weights(p, report):
     report.add("R17.2", g.qual, "missing mask = is_unlabeled(encoded labels, -1)", f"{g.file}:{g.node.lineno}", okm,
                detail="mask computed on the encoder's output with the encoder's sentinel" if okm else
                "mask is not computed on the encoded labels with sentinel -1")
+
+
+def _is_module_call(n):
+    return isinstance(n.func, ast.Attribute) and isinstance(n.func.value, ast.Name) and n.func.value.id in ("np", "numpy")
 
 
 def _forwards(call, pname):
